@@ -31,6 +31,9 @@
 
    "Unlink p?" is present in a run exactly when p exists before the run
    (`[po.unlink() for po in paths_out if po.exists()]`).
+   The safety argument does not depend on these differences, so one
+   automaton ([step_file]) accepts the union of the six life cycles; what
+   differs per task is whether several outputs are possible.
 
    Fault semantics: the process is killed immediately before operation k
    (every file open for writing is torn), or operation k raises and the
@@ -202,14 +205,6 @@ Definition total_of (t : list op) (p : path) : N :=
 (* ------------------------------------------------------------------ *)
 Inductive task := Compress | Condense | Repack | Join | Split | Tdms2rtdc.
 
-(* common.setup_task_paths is called (all tasks but split) *)
-Definition has_setup (tk : task) : bool :=
-  match tk with Split => false | _ => true end.
-
-(* the temporary file is created with h5py.File(path_temp, "w") *)
-Definition creates_trunc (tk : task) : bool :=
-  match tk with Compress | Condense | Repack => true | _ => false end.
-
 (* more than one output file possible *)
 Definition multi_output (tk : task) : bool :=
   match tk with Split | Tdms2rtdc => true | _ => false end.
@@ -255,27 +250,31 @@ Inductive phase :=
 | PC      (* temporary file closed *)
 | PDone.  (* renamed to the output path *)
 
-(* all stale files that setup has to remove are gone *)
-Definition setup_done (tk : task) (so st : bool) (ph : phase) : bool :=
+(* the temporary name is known to be absent: it did not exist before the
+   run, or it has been unlinked *)
+Definition tmp_absent (st : bool) (ph : phase) : bool :=
   match ph with
-  | P0 => negb (has_setup tk && so) && negb st
-  | P1 => negb st
+  | P0 | P1 => negb st
   | P2 => true
   | _ => false
   end.
 
-Definition step_file (tk : task) (so st : bool) (ph : phase) (l : lop)
-  : option phase :=
+(* The life cycle of one output file.  The safety argument is the same for
+   all six tasks, so the automaton accepts the union of what they do (see the
+   table above): stale files may be unlinked when they exist (an unlink of a
+   missing file raises in the real code); the temporary file is created
+   either by truncation ("w") or by open-append on a name known to be
+   absent (export.hdf5 / RTDCWriter "append"); then any number of writes and
+   of close / re-open-append rounds; the single rename comes last and only
+   when the file is closed. *)
+Definition step_file (so st : bool) (ph : phase) (l : lop) : option phase :=
   match ph, l with
-  | P0, LUnlinkOut => if has_setup tk && so then Some P1 else None
-  | P0, LUnlinkTmp =>
-      if has_setup tk && negb so && st then Some P2 else None
-  | P1, LUnlinkTmp => if has_setup tk && st then Some P2 else None
-  | (P0 | P1 | P2), LCreateTrunc =>
-      if creates_trunc tk && setup_done tk so st ph then Some PW else None
+  | P0, LUnlinkOut => if so then Some P1 else None
+  | P2, LUnlinkOut => if so then Some P2 else None
+  | (P0 | P1), LUnlinkTmp => if st then Some P2 else None
+  | (P0 | P1 | P2), LCreateTrunc => Some PW
   | (P0 | P1 | P2), LOpenAppend =>
-      if negb (creates_trunc tk) && setup_done tk so st ph then Some PW
-      else None
+      if tmp_absent st ph then Some PW else None
   | PW, LWrite => Some PW
   | PW, LClose => Some PC
   | PC, LOpenAppend => Some PW
@@ -297,7 +296,7 @@ Definition step (c : cfg) (ps : pstate) (o : op) : option pstate :=
   | CBad => None
   | CRead => Some ps
   | CFile i l =>
-      match step_file (c_task c) (c_so c i) (c_st c i) (ps i) l with
+      match step_file (c_so c i) (c_st c i) (ps i) l with
       | Some ph => Some (pupd ps i ph)
       | None => None
       end
